@@ -147,6 +147,7 @@ func (c *SpyConn) Close() error {
 func (c *SpyConn) Closed() bool { c.mu.Lock(); defer c.mu.Unlock(); return c.closed }
 
 func (c *SpyConn) SetReadDeadline(t time.Time) error {
+	c.log.Point(c.name + ".setReadDeadline.enter(" + pastFutureZero(t) + ")")
 	err := c.Conn.SetReadDeadline(t)
 	c.log.Point(c.name + ".setReadDeadline(" + pastFutureZero(t) + ")")
 	return err
